@@ -76,6 +76,7 @@ fn run_pc(pc: &ProblemCase, enc: Enc, a: usize, mk: &dyn Fn() -> Box<crustabri::
     match build(&pc.gc) {
         Built::U(af, labels) => run_problem(&af, &labels, pc.q, pc.sem, enc, a, pc.cert, mk()),
         Built::S(af, labels) => run_problem(&af, &labels, pc.q, pc.sem, enc, a, pc.cert, mk()),
+        Built::C(af, labels) => run_problem(&af, &labels, pc.q, pc.sem, enc, a, pc.cert, mk()),
     }
 }
 
